@@ -4188,6 +4188,65 @@ def spec_hidden_element_nothing(ctx, make_exe):
     return {"function": f.name, "paths": len(outs)}
 
 # ----------------------------------------------------------------------------
+# SPEC: whitespace (and comments, which skip_optional_whitespace also skips) is allowed between any two syntactic
+# elements of a rule set: the parser sequence parse_ruleset hands to nom::sequence::tuple has a
+# skip_optional_whitespace between every two other parsers, and is `{` rules `;`? `}` in that order.
+# ----------------------------------------------------------------------------
+
+def spec_ruleset_whitespace(ctx, make_exe):
+    import summaries
+    orig = summaries.summarize
+    f = the(ctx.find(r"^parse_ruleset$"), "css::parser::parse_ruleset")
+    exe = make_exe(loop_bound=6)
+    st = State()
+    seqs = []
+
+    def label(v):
+        while isinstance(v, VRef):
+            v = None
+        n = getattr(v, "name", "") or ""
+        if n.startswith("const:"):
+            m_ = re.search(r"(skip_optional_whitespace|parse_rules|parse_selector)\s*$", n) or re.search(r"\{(?:css::parser::)?(\w+)\}\s*$", n)
+            return m_.group(1) if m_ else n[6:]
+        return n
+
+    def summ(exe_, st_, f_, bb_, callee, args, dest_ty):
+        c = callee.strip()
+        if re.search(r"(^|::)tag::<", c):
+            return [(st_, VOpaque("parser", "tag:" + (getattr(args[0], "name", "?") or "?").replace("const:", "")))]
+        if re.search(r"(^|::)opt::<", c):
+            return [(st_, VOpaque("parser", "opt:" + label(args[0])))]
+        if re.search(r"(^|::)tuple::<", c):
+            t = args[0]
+            if isinstance(t, VAgg):
+                seqs.append([label(x) for x in t.fields])
+            return [(st_, VOpaque("parser", "tuple%d" % len(seqs)))]
+        if re.search(r"(^|::)separated_list0::<", c):
+            return [(st_, VOpaque("parser", "separated_list"))]
+        return orig(exe_, st_, f_, bb_, callee, args, dest_ty)
+    summaries.summarize = summ
+    try:
+        try:
+            outs = exe.run(f.name, {1: VRef("val", VOpaque("str", "text"))}, st)
+        except PathEnd as e:
+            outs = []
+            if os.environ.get("MIRSYM_DEBUG"):
+                print("PathEnd", e)
+    finally:
+        summaries.summarize = orig
+    body = [q for q in seqs if any(x.startswith("tag:") and "{" in x for x in q)]
+    if len(body) != 1:
+        raise Inconclusive("the parser sequence of a rule set's block was not recovered (%s)" % seqs)
+    seq = body[0]
+    core = [x for x in seq if x != "skip_optional_whitespace"]
+    post(exe, st, z3.BoolVal(core == ['tag:"{"', "parse_rules", 'opt:tag:";"', 'tag:"}"']), f.name,
+         "a rule set's block is `{` declarations, an optional `;`, `}` (got %s)" % core)
+    gaps = all(seq[i] == "skip_optional_whitespace" or seq[i + 1] == "skip_optional_whitespace" for i in range(len(seq) - 1))
+    post(exe, st, z3.BoolVal(bool(gaps) and seq and seq[0] == "skip_optional_whitespace" and seq[-1] == "skip_optional_whitespace"), f.name,
+         "whitespace and comments are skipped before, between and after all elements of a rule set's block (%s)" % seq)
+    return {"function": f.name, "paths": len(outs), "sequence": seq}
+
+# ----------------------------------------------------------------------------
 # SPEC: the string route and the lines route end on the same list of lines: SubRenderer::into_lines returns exactly
 # the renderer's lines after flush_wrapping, and SubRenderer::into_string prints exactly those lines after the same
 # flush_wrapping - neither adds, drops or reorders a line on its own.
@@ -5796,6 +5855,11 @@ ALL = [
          assumptions=["tree_map_reduce delivers the texts of the style elements in document order (extract_style_nodes / combine_vecs are not executed; "
                       "tree_traversal decides the order of the driver)", "StyleData::add_author_css is observed"],
          replay=lambda fd, vals, info: {"harness": "m_style_elements", "values": [[0]]}),
+    Spec("ruleset_whitespace", ["C17"], spec_ruleset_whitespace,
+         functions=["css::parser::parse_ruleset (the parser sequence it builds for nom::sequence::tuple)"],
+         bounds="none (the sequence is a constant of the function); decided by evaluation, no solver query is needed",
+         assumptions=["nom's tuple runs its parsers in order; skip_optional_whitespace skips whitespace and comments (not executed here)"],
+         replay=lambda fd, vals, info: {"harness": "m_css_ws", "values": [[0]]}),
     Spec("routes_same_lines", ["C10"], spec_routes_same_lines,
          functions=["SubRenderer::into_lines", "SubRenderer::into_string"],
          bounds="a renderer with an opaque list of lines (into_lines) / two opaque lines (into_string); flush_wrapping succeeds or fails arbitrarily",
